@@ -17,5 +17,5 @@ def check(ctx, rep):
     K.rule_container_override(fm, rep, 'R3')
     K.rule_incr_decr(fm, rep, 'R4')
     K.rule_plain_forms(fm, rep, 'R4b')
-    F.rule_setters(fm, rep, 'R2s')
+    F.rule_setters(fm, rep, 'R2s', only=('tags', 'cid'))
     F.rule_format(fm, rep, 'R2f', scope='tags')
